@@ -18,6 +18,9 @@ mod exm_max2sat;
 use exm_max2sat::ex_max2sat::{data, errors, heuristics, model, relax};
 mod exm_psp;
 mod exm_mcp;
+mod exm_golomb;
+mod exm_srflp;
+mod exm_talentsched;
 mod exm_alp;
 // `model.rs` of the alp example (compiled in by `exm_alp`) names its reader's module `crate::io_utils`
 #[allow(unused_imports)]
